@@ -246,6 +246,16 @@ type SOverride struct {
 	X string // declared after the embedded struct: overrides the flattened X
 }
 
+type SSwap struct {
+	A int8 `clover:"B"`
+	B int8 `clover:"A"`
+}
+
+type SChain struct {
+	ID  string `clover:"id_"`
+	Ext int16  `clover:"ID"`
+}
+
 type SPtrOmit struct {
 	PI  *int    `clover:"pi,omitempty"`
 	PB  *bool   `clover:",omitempty"`
@@ -302,7 +312,23 @@ func (g *goGen) structValue(depth int) (interface{}, V) {
 	s := strPool[g.r.Intn(len(strPool))]
 	var v interface{}
 	var a V
-	switch g.r.Intn(13) {
+	switch g.r.Intn(14) {
+	case 13:
+		// stored names that are other fields' Go names: a swap, and a chain (ID is stored as _id, Ext as ID)
+		ord2, iv2 := g.smallOrd()
+		if g.r.Intn(2) == 0 {
+			v = SSwap{A: int8(iv), B: int8(iv2)}
+			a = V{"struct", []interface{}{
+				fld("A", "B", 0, 0, 1, V{"int", ord, 8, zeroFlag(iv)}),
+				fld("B", "A", 0, 0, 1, V{"int", ord2, 8, zeroFlag(iv2)}),
+			}}
+		} else {
+			v = SChain{ID: s, Ext: int16(iv2)}
+			a = V{"struct", []interface{}{
+				fld("ID", "id_", 0, 0, 1, V{"string", B(s)}),
+				fld("Ext", "ID", 0, 0, 1, V{"int", ord2, 16, zeroFlag(iv2)}),
+			}}
+		}
 	case 12:
 		// omitempty on pointers: only a nil pointer is empty, a pointer to a zero value is kept
 		var pi *int
@@ -597,7 +623,7 @@ func roundTrip(d *document.Document, orig interface{}) string {
 			return "diff:invalid-utf8"
 		}
 		return "diff"
-	case SNested, SEmbPtr, SPtrOmit, STags:
+	case SNested, SEmbPtr, SPtrOmit, STags, SSwap, SChain:
 		// types with pointers, times and nested structs: compared through the documents of the original and of the
 		// struct that came back (two structs with equal documents may still differ in a nil pointer against a
 		// pointer to a zero value, which omitempty cannot tell apart either)
